@@ -61,15 +61,15 @@ CHECKS = {
   text="Planar area times one global constant must equal the spherical area of the image to 1e-6 for generated triangles, quadrilaterals and pentagons on all 12 faces; a violation needs two agreeing estimates, or raw areas at 64/128/256 points per piece that fail to decay like 1/n^2.",
   note="Polygon edges are split at the published seam rays and edge line before densifying (the map is only piecewise smooth).", ref="DESIGN.md §6 C14"),
  "C15": dict(
-  technique="forward/inverse call sequences on long-lived converters vs fresh ones; property-based testing: dense grid sweep (2e5/2e6 latitudes) + log-spaced approaches + Hypothesis floats; closed-form WGS84 oracle audited against 50-digit mpmath",
+  technique="forward/inverse call sequences on long-lived converters vs fresh ones, latitudes where divisors/comparison operands of the conversion code meet (branch-distance search); property-based testing: dense grid sweep (2e5/2e6 latitudes) + log-spaced approaches + Hypothesis floats; closed-form WGS84 oracle audited against 50-digit mpmath",
   text="forward vs closed form (1e-10), oddness, strict monotonicity on consecutive grid points, fixed points, round trip (1e-12), and the degree path through from_lonlat/to_lonlat. Measured 2e-16.",
   note="Closed form evaluated without cancellation near the poles; audited with mpmath on a sub-grid each run.", ref="DESIGN.md §6 C15"),
  "C16": dict(
-  technique="schedules aimed at shared mutable slots found by snapshot diffing (lib/sharedstate.py); property-based testing over schedules: harness-owned preemption injector (sys.settrace) driven by Hypothesis-generated (call A, call B, preemption point k), systematic sweep of every k for sampled pairs, cold-cache runs in forked pristine processes, real-thread supplement",
+  technique="schedules aimed at shared mutable slots found by snapshot diffing and at transient (restored-before-return) state found by per-line comparison (lib/sharedstate.py); property-based testing over schedules: harness-owned preemption injector (sys.settrace) driven by Hypothesis-generated (call A, call B, preemption point k), systematic sweep of every k for sampled pairs, cold-cache runs in forked pristine processes, real-thread supplement",
   text="Call A is suspended just before its k-th bytecode line inside a5, call B runs to completion, A resumes; both results must equal the sequential ones bit for bit. Random (A,B,k) over all public functions, warm and cold caches, plus every k for sampled pairs (thorough: exhaustive per pair) and 8 real threads at a 1us switch interval.",
   note="Context bound 2 (one preemption of A); C builtins atomic; a5 keeps no thread-local state.", ref="DESIGN.md §6 C16"),
  "C17": dict(
-  technique="very long histories (70k-600k calls) around probe calls, related out-of-order requests; stateful property-based testing: Hypothesis rule-based state machine over all public functions with data-dependent bundles, differential against a fresh fork of a pristine process for every call, argument and returned-list mutation checks",
+  technique="very long histories (70k-600k calls) around probe calls, related out-of-order requests, out-of-domain arguments; stateful property-based testing: Hypothesis rule-based state machine over all public functions with data-dependent bundles, differential against a fresh fork of a pristine process for every call, argument and returned-list mutation checks",
   text="Each machine owns a subject process with a growing call history; after every call the result is compared bit for bit with the same call in a fresh pristine process; arguments must be unchanged and scribbling over returned lists must not affect later calls.",
   note="A fork of a process that imported a5 and never called it stands for a fresh interpreter.", ref="DESIGN.md §6 C17"),
  "C18": dict(
